@@ -85,6 +85,18 @@ CHECKS = {
     design_ref="DESIGN.md section 6 C15",
     note="Trusts as C03. One recorded known finding (kinds/priorities pool across a reference boundary).",
     technique="TLA+ spec (SavedQ.tla over Filter.tla) + TLC case enumeration + S->I replay through the real expansion, compiler and index"),
+ "C10": dict(
+    category="model_checking",
+    text="FileOps.tla states `note move` as clauses over file lines and compiled notes (source-lines, dest-lines with a free landing position, pages-compile, other-notes, moved-once, moved-kind, moved-text, moved-metadata). TLC (MC_Move) enumerates 3,960 scenarios: source shapes (sections, inherited tags and properties incl. a multi-word one, ZID mentions in other notes, bullet lines, a note that is only its ZID) x note x marker x 11 destination forms (missing with/without template, header only, with items, ending in a section header with/without final newline, the note's own page). Each is run through the real `db create` and `note move`; TLC (Trace_Move) evaluates every clause on the recorded lines and on the notes the real compiler reports before/after.",
+    design_ref="DESIGN.md section 6 C10",
+    note="Trusts: TLC; the real compiler as reader of the pages (bound by C01/C02); a move that exits non-zero must leave both files unchanged.",
+    technique="TLA+ spec (FileOps.tla MoveClauses) + TLC scenario enumeration + S->I execution of the real command + batch validation by TLC"),
+ "C14": dict(
+    category="model_checking",
+    text="FileOps.tla defines rename on token sequences (RenameToks). TLC (MC_Rename) enumerates 5 (A, B) pairs x every sequence of up to 2 (quick: 1,360 cases) / 3 (thorough: 21,840) tokens over links to A, anchors, A's adversarial neighbours (prefix, extension, suffix-sharing, path-extensions, with extension) and look-alike text, and renders text before/after; the sequences are written into .zo/.zot/.zoq files in root and sub-directories, the real `zorg file rename` runs, and every file plus the directory listing is compared byte for byte.",
+    design_ref="DESIGN.md section 6 C14",
+    note="Trusts: TLC's string concatenation as the renderer of expected texts. Destination directory exists.",
+    technique="TLA+ spec (FileOps.tla RenameToks) + TLC exhaustive token-sequence enumeration + S->I execution of the real command with byte comparison"),
 }
 NOT_YET = "check not built yet in this round (planned in DESIGN.md section 6); not claimed until its evidence exists"
 
